@@ -139,6 +139,21 @@ theorem noGaps_text_is_filter (m : Msa) (gaps : Bytes) (wf : m.WF) (hd : m.isDig
     rw [List.any_eq_false] at this
     simpa using this _ (colOf_mem m.rows r hr i)
 
+/-! ## esl_sq_FetchFromMSA (esl_sq.c): the ungapped sequence as the library itself extracts it -/
+
+/-- the sequence fetched for a row is its ungapped residues (text: everything but `-_.~`; digital: everything but the
+    gap and missing-data codes) -/
+theorem fetch_is_ungapped_row (m : Msa) (which : Nat) (wf : m.WF) (hw : which < m.nseq) :
+    (fetchFromMSA m which).map (·.seq) = some (dealign (fetchIsGap m) (m.rows.getD which [])) :=
+  fetch_seq_eq m which wf hw
+
+/-- residues intact, observed through `esl_sq_FetchFromMSA`: a column selection that removes only gap cells of a row
+    (MinimGaps; `minimGaps*_removesOnlyGaps`) leaves the sequence fetched for that row unchanged -/
+theorem fetch_after_gap_removal (m : Msa) (mask : List Bool) (which : Nat) (wf : m.WF) (hm : mask.length = m.alen)
+    (hw : which < m.nseq) (hg : removesOnlyGaps (fetchIsGap m) mask (m.rows.getD which [])) :
+    (fetchFromMSA (m.colFilter mask) which).map (·.seq) = (fetchFromMSA m which).map (·.seq) :=
+  fetch_after_gap_removal' m mask which wf hm hw hg
+
 /-! ## SequenceSubset, Clone -/
 
 /-- `esl_msa_SequenceSubset` succeeds iff at least one sequence is selected, and then rows, names, weights, accessions,
